@@ -147,6 +147,35 @@ def addr_near_rule(rnd, rules):
     return txt, val
 
 
+def glob_instance(rnd, pat, limit):
+    """A string built from a glob pattern: an instance of it ('*' -> 0-5 characters, '?' -> one), or a near
+    miss (one letter in the other case, last character dropped, one character added at either end)."""
+    out = []
+    for ch in pat:
+        if ch == "*":
+            out.append(word(rnd, rnd.randint(1, 5), HOSTCH) if rnd.random() < 0.8 else "")
+        elif ch == "?":
+            out.append(rnd.choice(HOSTCH))
+        else:
+            out.append(ch)
+    s = "".join(out)
+    k = rnd.random()
+    if k < 0.12 and any(c.isalpha() for c in s):
+        j = rnd.choice([j for j, c in enumerate(s) if c.isalpha()])
+        s = s[:j] + s[j].swapcase() + s[j + 1:]
+    elif k < 0.2 and len(s) > 1:
+        s = s[:-1]
+    elif k < 0.28:
+        s = s + rnd.choice("x0.")
+    elif k < 0.34:
+        s = rnd.choice("x0~") + s
+    return s[:limit] if s else "x"
+
+
+def rule_values(rules, key):
+    return [rl[key] for _, rl in sorted(rules.items()) if key in rl]
+
+
 def gen_logs(rnd):
     ents = []
     for _ in range(rnd.randint(1, 4)):
@@ -251,6 +280,20 @@ class Gen:
         if r.random() < 0.1:
             real = r.choice(["", ":colon first", " lead", "trail ", "caf\xe9 \xff", "%s %d"])
         host = (word(r, self.L(HOSTLEN) - 4, HOSTCH) + r.choice([".org", ".net"])) if r.random() < 0.75 else None
+        # client data built from the rule table in force: instances and near misses of its globs
+        if self.cfg["modules"] == "class" and self.lenmode != "over":
+            pats = rule_values(self.rules_now, "username")
+            if pats and r.random() < 0.45:
+                u = glob_instance(r, r.choice(pats), USERLEN)
+                if u.startswith("~") and r.random() < 0.5:
+                    ident, claimed = ("u", r.choice([None, ""])), (u[1:] or "x")
+                else:
+                    ident = ("u", u)
+                self.fire("ident_near_rule")
+            pats = rule_values(self.rules_now, "hostname")
+            if pats and r.random() < 0.45:
+                host = glob_instance(r, r.choice(pats), HOSTLEN)
+                self.fire("host_near_rule")
         evs = [("N", host) if host else ("d", None), ident, ("n", nick), ("U", [claimed, real])]
         if r.random() < 0.25:
             evs.append(("n", word(r, self.L(NICKLEN))))
@@ -294,8 +337,12 @@ class Gen:
             return "X", "OK"
         if k == "OKA":
             a = word(r, r.randint(1, 12), "abcdefghijklmnopqrstuvwxyzABCDEFXYZ0123456789")
+            pats = rule_values(self.rules_now, "account") if self.cfg["modules"] == "class" else []
+            if pats and r.random() < 0.4:
+                a = glob_instance(r, r.choice(pats).split(":")[0], 12)
+                self.fire("account_near_rule")
             a = r.choice([a, a + ":%d" % r.randrange(10 ** 9), a + ":%d:%d" % (r.randrange(10 ** 9), r.randrange(10 ** 6)),
-                          "oper", "oper:1:2", "nobody", a + "x" * 70])
+                          a, "oper", "oper:1:2", "nobody", a + "x" * 70])
             return "X", "OK " + a + r.choice(["", "", " trailing words"])
         if k == "OKE":
             return "X", "OK "
@@ -407,6 +454,11 @@ class Gen:
                     "laddr": r.choice(["0::1", "127.0.0.1", "192.0.2.1"]), "lport": r.choice([6667, 7000, 7701])}
         if a == "adv":
             dl = sorted(i.deadline - w.now for i in w.live.values() if i.deadline is not None and not i.expired)
+            # deadlines of finished instances whose id is live again: a timer that outlived its request would fire here
+            stale = sorted(i.deadline - w.now for i in w.all if i.ended is not None and i.deadline is not None and not i.expired
+                           and i.deadline > w.now and i.cid in w.live)
+            if stale and (not dl or r.random() < 0.5):
+                dl = stale
             k = r.random()
             if dl and k < 0.5:
                 ns = dl[0] + r.choice([0, 0, -1, 1, NS])
@@ -672,13 +724,16 @@ class Exec:
             inst = op.get("inst", "cur")
             cur = w.live.get(cid)
             tag = None
+            target = None
             if inst == "cur":
                 tag = cur.tag if cur else None
+                target = cur
             elif inst == "prev" or inst.startswith("prev:"):
                 k = int(inst[5:]) if inst.startswith("prev:") else 0
-                cands = [i.tag for i in reversed(w.all) if i.cid == cid and i.ended is not None and i.tag]
+                cands = [i for i in reversed(w.all) if i.cid == cid and i.ended is not None and i.tag]
                 if cands:
-                    tag = cands[min(k, len(cands) - 1)]
+                    target = cands[min(k, len(cands) - 1)]
+                    tag = target.tag
             elif inst.startswith("forged:"):
                 base = cur.tag if cur and cur.tag else next((i.tag for i in reversed(w.all) if i.tag), None)
                 tag = forge(base, inst[7:], w, cid)
@@ -688,6 +743,8 @@ class Exec:
                 return None
             c = dict(op)
             c["tag"] = tag
+            if target is not None:
+                c["target"] = (target.cid, target.n)    # the instance this reply is meant for, whatever the tag text
             verb = "X" if op["kind"] == "X" else "x"
             if op.get("text") is None:
                 c["line"] = "-1 %s %s %s" % (verb, op["svc"], tag)
@@ -803,7 +860,11 @@ class Exec:
         if getattr(self, "nonstop", False):
             del self.w.viol[20:]
             return not self.h.dead
-        return not self.w.viol and not self.h.dead
+        # the run goes on after a violation of a property other than the one being checked (each check then
+        # judges the whole history by its own oracle); it ends at the first violation of its own property
+        if any(self.prop in v.props for v in self.w.viol) or len(self.w.viol) >= 6:
+            return False
+        return not self.h.dead
 
     def do_reload(self, c):
         how = c["how"]
@@ -906,7 +967,7 @@ class Exec:
             return False
         for cid in sorted(w.live):
             i = w.live[cid]
-            if i.opaque:
+            if not w.progress_determined(i):
                 w.probe("opaque_after_drain")
                 continue
             if not w.blocked_by_bang(i):
